@@ -145,6 +145,8 @@ def gen_trace(recipe):
   # ---- every other data-taking method on index patterns
   for (meth, size) in methods_for(name):
     pats = list(recipe['patterns'].get(str(size), []))
+    # directed: indicators counting from the END (-1 is the last point), as numpy indexing and Python lists understand them
+    pats.append([[0 - ((r + c) % min(n, 5)) for c in range(size)] for r in range(3)])          # (1-based: 0 -> -1, -1 -> -2, ...)
     if size >= 2 and table_fn is not None and n // 3 >= 2 and n // 3 + size <= n:
       # directed: the FIRST point of every tuple has whole-number coordinates, the others do not (1-based rows)
       k3 = n // 3
@@ -159,6 +161,8 @@ def gen_trace(recipe):
         if len(T) < 2:
           continue
       dt = DTYPES[int(rng.integers(len(DTYPES)))]
+      if T.min() < 0 and np.dtype(dt).kind == 'u':
+        dt = np.int64
       forder = bool(rng.integers(2))
       digs = {}
       exc = ''
